@@ -199,6 +199,14 @@ def str_eq(a, b):
     if len(pa) == len(pb) and all((isinstance(x, str) and x == y) or (isinstance(x, Atom) and x.same(y))
                                   for x, y in zip(pa, pb)):
         return True
+    # same shape with injective atoms: equal iff the atoms' values are equal
+    if len(pa) == len(pb) and all((isinstance(x, str) and isinstance(y, str) and x == y) or
+                                  (isinstance(x, Atom) and isinstance(y, Atom) and x.kind == y.kind and
+                                   x.kind in ('dec', 'ip4', 'ip6', 'mac') and x.extra == y.extra)
+                                  for x, y in zip(pa, pb)):
+        from .values import mk_bool
+        terms = [x.t == y.t for x, y in zip(pa, pb) if isinstance(x, Atom)]
+        return mk_bool(z3.And(terms))
     # a literal vs an atom-bearing string: decide by alphabet where possible
     lit, st = (a, b) if isinstance(a, str) else ((b, a) if isinstance(b, str) else (None, None))
     if lit is not None:
